@@ -6,3 +6,6 @@ import PanderaModel.Props.C13
 #print axioms Pandera.Strat.replace_witness
 #print axioms Pandera.Strat.unsat_reports
 #print axioms Pandera.Strat.column_sound
+#print axioms Pandera.Strat.eraseDups_of_nodup
+#print axioms Pandera.Strat.flatten_matched
+#print axioms Pandera.Strat.frame_sound
